@@ -592,7 +592,7 @@ func (e *Exec) unop(s *State, x *ssa.UnOp) {
 	case token.SUB:
 		l := leaves(x.Type())[0]
 		raw := c.I("(- %s)", e.val(s, x.X)[0])
-		if l.signed && l.bits == 64 && c.raw == 0 && !cmpLitOnly.MatchString(raw) {
+		if l.signed && l.bits == 64 && c.raw == 0 && !cmpLitOnly.MatchString(raw) && e.root.spec != nil && e.root.spec.OverflowChecked {
 			h := pow2(63)
 			c.oblige(e.obl("safety", "overflow", x), s.pc, c.B("(< %s %s)", raw, h))
 			s.regs[x] = Val{raw}
@@ -817,7 +817,7 @@ func (e *Exec) binop(s *State, x *ssa.BinOp) Val {
 	case token.ADD, token.SUB, token.MUL:
 		op := map[token.Token]string{token.ADD: "+", token.SUB: "-", token.MUL: "*"}[x.Op]
 		raw := c.I("(%s %s %s)", op, a[0], b[0])
-		if l.signed && l.bits == 64 && c.raw == 0 {
+		if l.signed && l.bits == 64 && c.raw == 0 && e.root.spec != nil && e.root.spec.OverflowChecked {
 			// int / int64: absence of overflow is an obligation of its own (as for index
 			// arithmetic in any RTE-style verifier); once discharged the exact result is used,
 			// which keeps the rest of the VC linear. (Unsigned and narrower types wrap, as Go defines.)
